@@ -1093,8 +1093,10 @@ class Gen:
             if st['k'] == 'read' and st['plant'] == 'out_of_data':
                 i = len(body)
             body.insert(i, st)
+            # set-up goes to the very front: a GOTO must not skip a DIM (a
+            # static array whose DIM never executed is outside the subset)
             for q in reversed(pre):
-                body.insert(r.randint(0, i), q)
+                body.insert(0, q)
             self.planted = st
         main += body
         if onerr and r.random() < 0.3:
